@@ -93,12 +93,21 @@ def check(ctx):
     ctx.rule('C07.W4', 'enabling writes are followed by notify on all paths')
     ctx.rule('C07.W5', 'wait returns only through the predicate; queueNotifyCounter written only by balanced ctor/dtor')
 
+    ctx.rule('C07.W7', 'the put-back of declined events (no notify) happens inside the in-dispatch guard that was entered before the take')
+    ctx.rule('C07.W8', 'the in-dispatch counter (read by the wait predicate) is written only by its RAII guard')
     ctx.rule('C07.W6', 'queueNotifyCounter starts at zero in every constructor')
     from .qcommon import check_counter_zero
     for tu in ctx.tus:
         check_tu(ctx, tu)
         check_counter_zero(ctx, tu, 'C07.W6')
-    ctx.require_min('C07.W6', 6)    # default, copy, move x 2 queue classes
+        from .c11 import check_guard_span
+        from .qcommon import TUInfo
+        info7 = TUInfo(tu)
+        for q in QUEUES:
+            check_guard_span(ctx, tu, info7, q, 'C07.W7', only_with_putback=True)
+    ctx.require_min('C07.W7', 3)    # processIf, processUntil, heter doProcessIf
+    ctx.require_min('C07.W6', 6)
+    ctx.require_min('C07.W8', 7)    # default, copy, move x 2 queue classes
 
     ctx.require_min('C07.W1', 4)    # wait, waitFor x 2 queue classes
     ctx.require_min('C07.W2', 4)
@@ -219,7 +228,14 @@ def check_tu(ctx, tu):
                 if fld == 'queueNotifyCounter':
                     kind = {'--': 'enabling', '++': 'disabling'}.get(how)
                 elif fld == 'queueEmptyCounter':
-                    kind = 'neutral' if how == 'guard' else None
+                    # part of the wait predicate (through emptyQueue()): only the RAII guard may change it, so that it is back at its
+                    # previous value however the processing call ends - a manual ++/-- pair leaves it raised when a listener throws,
+                    # and wait()/waitFor() then return at once on an empty queue for ever
+                    ctx.ob('C07.W8', f, 'queueEmptyCounter is changed only through the scope guard (balanced on every exit, exceptions included)',
+                           how == 'guard', detail='"%s" at %s' % (how, f.nloc(w['node'])), where=f.nloc(w['node']), key_detail='raw counter write')
+                    if how != 'guard':
+                        continue
+                    kind = 'neutral'
                 elif fld == 'queueList':
                     if w['path'][-1] != '.queueList':
                         continue   # access to an element, not a write to the list
